@@ -4120,6 +4120,14 @@ class SFTPClient:
                 if srcattrs.size is None:
                     raise SFTPFailure('File size not available')
 
+                # Opening the destination truncates it, so a file copied
+                # onto itself would lose its contents
+                if srcfs == dstfs and \
+                        posixpath.normpath(srcpath) == \
+                        posixpath.normpath(dstpath):
+                    raise SFTPFailure('Source and destination are the '
+                                      'same file')
+
                 await _SFTPFileCopier(block_size, max_requests,
                                       srcattrs.size, sparse,
                                       srcfs, dstfs, srcpath, dstpath,
